@@ -74,3 +74,8 @@ ALSO_SERVES = {
     "C03": ["urwid/util.py:calc_trim_text", "urwid/str_util.py:calc_text_pos", "urwid/str_util.py:calc_width"],
     "C04": ["urwid/util.py:calc_trim_text"],
 }
+
+SHARDS.update({
+    "urwid/vterm.py:TermCanvas.csi_set_attr": (12, 6),
+    "urwid/vterm.py:TermCanvas.sgi_to_attrspec": (6, 4),
+})
